@@ -26,10 +26,17 @@ def wNoEq : Content :=
   { vars := [("x", .plain 1), ("z", .plain 1)], pars := [("k", .plain 2)]
     rxns := [("r", { rate := fMul "x" "k", stoich := [("x", .num (-1))] })] }
 
-/-- F-C07-5: parameter `q` is defined by an initial assignment -/
+/-- former F-C07-5 witness (repaired): parameter `q` is defined by an initial assignment -/
 def wIAPar : Content :=
   { vars := [("x", .plain 1), ("y", .plain 1)], pars := [("k", .plain 2), ("q", .ia (fAdd "k" "k"))]
     rxns := [("r", { rate := fMul "x" "q", stoich := [("x", .num (-1)), ("y", .num 1)] })] }
+
+/-- a parameter defined by an initial assignment that reads a variable's initial value, a derived parameter
+    that reads it, a variable whose initial assignment reads it -/
+def wIAPar2 : Content :=
+  { vars := [("x", .plain 1), ("y", .ia (fAdd "q" "k"))], pars := [("k", .plain 2), ("q", .ia (fMul "x" "k"))]
+    derived := [("d2", fMul "x" "dq"), ("dq", fAdd "q" "k")]
+    rxns := [("r", { rate := fMul "d2" "q", stoich := [("x", .num (-1)), ("y", .num 1)] })] }
 
 def isNameError : Except Err (List Rat) → Bool
   | .error (.keyError _) => true
